@@ -119,7 +119,11 @@ fn plan10(seed: u64, run: u64, tier: Tier) -> Plan10 {
     o.crlf = rng.chance(1, 10);
     o.unicode = rng.chance(1, 3);
     let (mut program, _) = jsgen::gen_program(&mut rng, o);
-    if rng.chance(1, 6) {
+    if run % 40 == 11 {
+        // a big program: the final map is larger than 64 KiB (anything encoded, buffered or copied in blocks)
+        let n = *rng.pick(&[400usize, 700, 1500]);
+        program = jsgen::gen_repeat(&mut rng, n);
+    } else if rng.chance(1, 6) {
         // the repository's own test inputs, in blocks (a syntax error in one makes the run a non-chaining one)
         let n = rng.range(1, 3);
         let c = jsgen::gen_corpus(&mut rng, n);
